@@ -197,7 +197,16 @@ type c11Case struct {
 	PolicyDB  string    `json:"policy_database"`
 	Filter    *string   `json:"policy_measurement"`
 	Files     []c11File `json:"files"`
+	Junk      []c11Junk `json:"unreadable_files"`
 	Steps     []string  `json:"steps"`
+}
+
+// c11Junk is a *.parquet object retention cannot take MAX(time) from: a
+// truncated upload, a zero-row file, or a file without a time column. Its base
+// name contains "junk" so the read-back skips it.
+type c11Junk struct {
+	Rel  string `json:"path"`
+	Kind string `json:"kind"`
 }
 
 var (
@@ -273,11 +282,33 @@ func (e *c11Env) writeFile(rel string, rows []c11Row) error {
 	return err
 }
 
+func (e *c11Env) writeJunk(j c11Junk) error {
+	p := filepath.Join(e.root, j.Rel)
+	if err := os.MkdirAll(filepath.Dir(p), 0o755); err != nil {
+		return err
+	}
+	switch j.Kind {
+	case "truncated":
+		return os.WriteFile(p, []byte("PAR1\x15\x00\x15\x10truncated"), 0o644)
+	case "zero-rows":
+		_, err := e.ref.Exec("COPY (SELECT 1::BIGINT AS rid, TIMESTAMP '2024-01-01' AS time, 'h' AS host, 0.5::DOUBLE AS v WHERE false) TO " + duck.SQLString(p) + " (FORMAT PARQUET)")
+		return err
+	default: // no-time-column
+		_, err := e.ref.Exec("COPY (SELECT 1::BIGINT AS rid, 'h' AS host, 0.5::DOUBLE AS v) TO " + duck.SQLString(p) + " (FORMAT PARQUET)")
+		return err
+	}
+}
+
 // readState reads every parquet file below the storage root with the reference
 // DuckDB: relative path -> rows.
 func (e *c11Env) readState() (map[string][]c11Row, error) {
 	out := map[string][]c11Row{}
-	files := duck.FindParquet(e.root)
+	var files []string
+	for _, f := range duck.FindParquet(e.root) {
+		if !strings.Contains(filepath.Base(f), "junk") {
+			files = append(files, f)
+		}
+	}
 	if len(files) == 0 {
 		return out, nil
 	}
@@ -360,6 +391,25 @@ func c11Gen(t *rapid.T, e *c11Env) (*c11Case, time.Time) {
 				rel := c11PathFor(db, m, ts[0], day, fmt.Sprintf("n%d_f%d", e.n, fidx))
 				c.Files = append(c.Files, c11File{DB: db, Meas: m, Rel: rel, Class: class, Rows: rows})
 			}
+		}
+	}
+	// unreadable objects: at the very front of a measurement's listing (an old
+	// partition directory) or in front of a generated file inside its directory
+	if rapid.IntRange(0, 2).Draw(t, "withJunk") == 0 {
+		nj := rapid.IntRange(1, 2).Draw(t, "njunk")
+		for j := 0; j < nj; j++ {
+			f := rapid.SampledFrom(c.Files).Draw(t, "junkNear")
+			kind := rapid.SampledFrom([]string{"truncated", "zero-rows", "no-time-column"}).Draw(t, "junkKind")
+			var rel string
+			switch rapid.IntRange(0, 2).Draw(t, "junkPos") {
+			case 0:
+				rel = fmt.Sprintf("%s/%s/2019/12/31/23/a_n%d_junk%d.parquet", f.DB, f.Meas, e.n, j)
+			case 1:
+				rel = filepath.Dir(f.Rel) + fmt.Sprintf("/a_n%d_junk%d.parquet", e.n, j)
+			default:
+				rel = filepath.Dir(f.Rel) + fmt.Sprintf("/z_n%d_junk%d.parquet", e.n, j)
+			}
+			c.Junk = append(c.Junk, c11Junk{Rel: rel, Kind: kind})
 		}
 	}
 	c.PolicyDB = rapid.SampledFrom(c11DBs).Draw(t, "policyDB")
@@ -456,6 +506,13 @@ func c11Property(t *rapid.T, e *c11Env) {
 		if err := e.writeFile(f.Rel, f.Rows); err != nil {
 			t.Fatalf("HARNESS write %s: %v", f.Rel, err)
 		}
+	}
+
+	for _, j := range c.Junk {
+		if err := e.writeJunk(j); err != nil {
+			t.Fatalf("HARNESS write junk %s: %v", j.Rel, err)
+		}
+		verifkit.Class("unreadable-file-" + j.Kind)
 	}
 
 	// policy
@@ -556,6 +613,27 @@ func c11Property(t *rapid.T, e *c11Env) {
 			t.Fatalf("VERIF-FAIL class=C11/dry-run-changed-data diff=%s case=%s", d, c11JSON(c))
 		}
 
+		// Between the dry run and the confirmed run the object at an existing
+		// path may be replaced (restore, import or sync re-delivery, in-place
+		// rewrite by the DELETE API). The dry run is then repeated: its report
+		// must describe the data as it is now, and so must the real run.
+		if rapid.IntRange(0, 2).Draw(t, "replaceAfterDryRun") == 0 && e.replaceSome(t, c, pre, cutoff, covered) {
+			pre, err = e.readState()
+			if err != nil {
+				t.Fatalf("HARNESS read pre-state: %v", err)
+			}
+			before = c11TreeHash(e.root)
+			c.Steps = append(c.Steps, fmt.Sprintf("dry-run cutoff=%s", cutoff.Format(time.RFC3339Nano)))
+			dry = e.run(t, c, c.Mode, policyID, policy, cutoff, true)
+			if dry.Err != "" {
+				t.Fatalf("VERIF-FAIL class=C11/dry-run-error err=%s case=%s", dry.Err, c11JSON(c))
+			}
+			if d := c11TreeDiff(before, c11TreeHash(e.root), func(string) bool { return true }); d != "" {
+				t.Fatalf("VERIF-FAIL class=C11/dry-run-changed-data diff=%s case=%s", d, c11JSON(c))
+			}
+			nontrivial = true
+		}
+
 		// real run
 		c.Steps = append(c.Steps, fmt.Sprintf("run cutoff=%s", cutoff.Format(time.RFC3339Nano)))
 		real := e.run(t, c, c.Mode, policyID, policy, cutoff, false)
@@ -638,6 +716,13 @@ func c11Property(t *rapid.T, e *c11Env) {
 				verifkit.Class("compaction-merge-between-runs")
 			}
 		}
+		if rapid.IntRange(0, 2).Draw(t, "replaceBetweenRounds") == 0 {
+			mid, err := e.readState()
+			if err != nil {
+				t.Fatalf("HARNESS read state: %v", err)
+			}
+			e.replaceSome(t, c, mid, cutoff, covered)
+		}
 		cur, err := e.readState()
 		if err != nil {
 			t.Fatalf("HARNESS read state: %v", err)
@@ -671,6 +756,73 @@ func c11Property(t *rapid.T, e *c11Env) {
 			verifkit.Sample(c)
 		}
 	}
+}
+
+// replaceSome rewrites 1-2 existing files at their own paths with different
+// content: rows all at/after the cutoff ("restored"), rows all before it, or
+// the file minus its rows at/after the cutoff (what DELETE ... WHERE time >= x
+// leaves behind). Returns false when there is nothing to replace.
+func (e *c11Env) replaceSome(t *rapid.T, c *c11Case, state map[string][]c11Row, cutoff time.Time, covered func(string) bool) bool {
+	var rels []string
+	maxRid := int64(0)
+	for rel, rows := range state {
+		for _, r := range rows {
+			if r.Rid > maxRid {
+				maxRid = r.Rid
+			}
+		}
+		if len(rows) > 0 && (covered(rel) || len(rel)%4 == 0) { // mostly covered files, some others
+			rels = append(rels, rel)
+		}
+	}
+	if len(rels) == 0 {
+		return false
+	}
+	sort.Strings(rels)
+	cus := cutoff.UnixMicro()
+	if time.UnixMicro(cus).Before(cutoff) {
+		cus++ // first microsecond that is not before the cutoff
+	}
+	n := rapid.IntRange(1, 2).Draw(t, "nreplace")
+	done := map[string]bool{}
+	for i := 0; i < n; i++ {
+		rel := rapid.SampledFrom(rels).Draw(t, "replacePath")
+		if done[rel] {
+			continue
+		}
+		done[rel] = true
+		kind := rapid.SampledFrom([]string{"all-new", "all-old", "drop-new-rows"}).Draw(t, "replaceKind")
+		var rows []c11Row
+		if kind == "drop-new-rows" {
+			for _, r := range state[rel] {
+				if r.Us < cus {
+					rows = append(rows, r)
+				}
+			}
+			if len(rows) == 0 || len(rows) == len(state[rel]) {
+				kind = "all-old"
+			}
+		}
+		if kind != "drop-new-rows" {
+			k := rapid.IntRange(1, 3).Draw(t, "replaceRows")
+			rows = nil
+			for j := 0; j < k; j++ {
+				maxRid++
+				off := rapid.Int64Range(0, 2*c11Hour).Draw(t, "replaceOff")
+				if kind == "all-new" {
+					rows = append(rows, c11Row{Rid: maxRid, Us: cus + off})
+				} else {
+					rows = append(rows, c11Row{Rid: maxRid, Us: cus - 1 - off})
+				}
+			}
+		}
+		if err := e.writeFile(rel, rows); err != nil {
+			t.Fatalf("HARNESS replace %s: %v", rel, err)
+		}
+		c.Steps = append(c.Steps, fmt.Sprintf("replace %s with %s %v", rel, kind, rows))
+		verifkit.Class("file-replaced-in-place-" + kind)
+	}
+	return true
 }
 
 // compactOneDay compacts the files of one (measurement, day) holding >= 2
@@ -711,7 +863,7 @@ func (e *c11Env) compactOneDay(t *rapid.T, c *c11Case, state map[string][]c11Row
 		var fresh []string
 		for _, f := range duck.FindParquet(filepath.Join(e.root, g)) {
 			rel, _ := filepath.Rel(e.root, f)
-			if _, old := state[rel]; !old {
+			if _, old := state[rel]; !old && !strings.Contains(filepath.Base(rel), "junk") {
 				fresh = append(fresh, rel)
 			}
 		}
